@@ -30,6 +30,38 @@ var commonAssumptions = []string{
 func allChecks() []CheckSpec {
 	return []CheckSpec{
 		{
+			ID: "C02",
+			Harnesses: []HarnessSpec{
+				{Fn: "verifC02Inbound", Lemma: "one STUN message of any class/method into the real handleInbound from a symbolic pre-state: non-Binding and error responses, requests with a wrong/absent USERNAME or an integrity not under the local password, responses not under the remote password or from an unknown source change nothing observable (datagrams, candidates, pairs, selection, state, role, timestamps, callbacks, transactions); a signed response changes pair state only for an outstanding (<4 s), same-transport, same-address transaction and only on the pair (receiving local, source remote); an indication can only refresh the known remote's last-received",
+					Bounds: "quick: 1 local + 1 remote UDP candidate, thorough: 2+2 and lite agents; pair state/flags symbolic, selection nil or any pair, 0..2 outstanding transactions with symbolic id/age(0..20 s)/destination/transport; message: 4 classes, Binding or any 12-bit method, USERNAME absent/correct/arbitrary 9 bytes/arbitrary 8 bytes, integrity absent/local/remote/other key, USE-CANDIDATE, role attribute, 32-bit priority, arbitrary 96-bit transaction id; source = remote, its IPv4-mapped form, or any IPv4 address:port",
+					MustReach: []string{"not-handled", "request-unauthenticated", "request-authenticated", "response-bad-integrity", "response-unknown-source", "response-authenticated", "response-changed-pair-state", "indication", "indication-unknown-source", "done"}},
+				{Fn: "verifC02AfterRestart", Lemma: "real Restart, then a request signed for the old generation or a response to an old transaction under the old remote password: nothing changes",
+					Bounds: "1 local + 1 remote, both roles, both message kinds", MustReach: []string{"done"}},
+			},
+			Assumptions: append([]string{
+				"MESSAGE-INTEGRITY is a contract: the tag is an injective function of the key (valid under k1 and k2 implies k1 = k2); HMAC-SHA1 itself is not encoded",
+				"CRC-32 (FINGERPRINT) uninterpreted; transaction ids and clock readings arbitrary, successive clock readings within one step at most 1 ms apart",
+				"message enters at Agent.handleInbound (after stun.Message.Decode, which belongs to pion/stun); taskloop.Run modelled by its contract (C10 assumed)",
+				"agent credentials are concrete strings; the message's USERNAME bytes are symbolic",
+			}, commonAssumptions...),
+			Outside: "message bytes -> Decode; TCP candidates; IPv6 zones; histories longer than one step from the bounded pre-state (the lemmas are inductive over the stated pre-state family)",
+		},
+		{
+			ID: "C05",
+			Harnesses: []HarnessSpec{
+				{Fn: "verifC05RoleConflict", Lemma: "one authenticated Binding request into the real handleInbound: conflict iff the claimed role equals the own role; on conflict the role is kept and a 487 Binding error echoing the transaction id is sent iff (controlling and local>=remote) or (controlled and local<remote), otherwise the role flips, the selector is replaced and nothing is sent; never a success response, pair change, selection or new candidate; without conflict the request is answered",
+					Bounds: "all 2^64 x 2^64 (local, remote) tie-breakers, both own roles, attribute kinds {none, controlling, controlled, both}, with/without USE-CANDIDATE; 1 local + 1 remote UDP candidate, full agent", MustReach: []string{"conflict", "487", "switch", "no-conflict", "done"}},
+				{Fn: "verifC05Pairwise", Lemma: "two agents in the same role with distinct tie-breakers: exactly one of the two cross-handled requests makes its receiver switch",
+					Bounds: "all distinct 64-bit tie-breaker pairs, both same-role starts", MustReach: []string{"done"}},
+			},
+			Assumptions: append([]string{
+				"MESSAGE-INTEGRITY is a contract: the tag is an injective function of the key (valid under k1 and k2 implies k1 = k2); HMAC-SHA1 itself is not encoded",
+				"CRC-32 (FINGERPRINT) uninterpreted; transaction ids and clock readings are arbitrary values",
+				"message enters at Agent.handleInbound (after stun.Message.Decode, which belongs to pion/stun)",
+			}, commonAssumptions...),
+			Outside: "message orderings between two live agents; the consequence 'after which C01 holds'; lite agents",
+		},
+		{
 			ID: "C14",
 			Harnesses: []HarnessSpec{
 				{Fn: "verifC14Read", Lemma: "one readStreamingPacket call on an arbitrary byte stream: returns exactly be16(header) body bytes, consumes 2+length, never requests bytes beyond the frame, ErrShortBuffer without reading the body when the frame exceeds cap(buf), every read error/EOF/truncation yields an error and no packet, no panic",
